@@ -262,7 +262,7 @@ impl FileSystem for OverlayFs {
 
         flags |= libc::O_NOFOLLOW;
 
-        if self.config.writeback {
+        if self.writeback.load(Ordering::Relaxed) {
             if flags & libc::O_ACCMODE == libc::O_WRONLY {
                 flags &= !libc::O_ACCMODE;
                 flags |= libc::O_RDWR;
@@ -390,7 +390,7 @@ impl FileSystem for OverlayFs {
         let mut flags: i32 = args.flags as i32;
         flags |= libc::O_NOFOLLOW;
         flags &= !libc::O_DIRECT;
-        if self.config.writeback {
+        if self.writeback.load(Ordering::Relaxed) {
             if flags & libc::O_ACCMODE == libc::O_WRONLY {
                 flags &= !libc::O_ACCMODE;
                 flags |= libc::O_RDWR;
